@@ -187,6 +187,9 @@ def ast_dump(file, filt, lang):
     h = hashlib.sha256()
     h.update(header_digest().encode())
     h.update(" ".join(cmd[:-1]).replace(REPO, "<repo>").replace(common.REPO_BUILD, "<build>").encode())
+    # the dump names its source files by absolute path (used later to cut out the functions' text): never reuse the dump of
+    # another tree (a scratch worktree that may be gone by now)
+    h.update(os.path.abspath(REPO).encode())
     with open(path, "rb") as f:
         h.update(f.read())
     cdir = os.path.join(common.BUILD, "gen", "leafcache")
